@@ -13,8 +13,8 @@ the whole-rule theorem below is about the statement part of the rule.
 namespace DarkluaModel.Rules.UnusedIfBranch.Whole
 open DarkluaModel.Sem DarkluaModel.Rules DarkluaModel.Rules.UnusedIfBranch DarkluaModel.Rules.UnusedIfBranch.Sound
 
-theorem retain_le {api : EvalApi} (ht : EvalTotal api)
-    {N : NumOps} (call : CallFn N) (ρ : ExtOracle N) (k : Nat) (env : Env N) (els1 : Option Block)
+theorem retain_le {N : NumOps} {api : EvalApi} (ht : EvalTotal N api)
+    (call : CallFn N) (ρ : ExtOracle N) (k : Nat) (env : Env N) (els1 : Option Block)
     (brs : List (Expr × Block)) (σ : State N) :
     sem call ρ k env brs els1 σ = .timeout ∨
     sem call ρ k env (retainBranches api brs {}).1 (elseAfter (retainBranches api brs {}).2 els1) σ
@@ -73,8 +73,8 @@ theorem retain_le {api : EvalApi} (ht : EvalTotal api)
             exact ih σ
 
 /-- `simplify_if_statement` up to budget exhaustion -/
-theorem simplifyIfStatement_le {api : EvalApi} (ht : EvalTotal api)
-    {N : NumOps} (call : CallFn N) (ρ : ExtOracle N) (k : Nat) (env : Env N)
+theorem simplifyIfStatement_le {N : NumOps} {api : EvalApi} (ht : EvalTotal N api)
+    (call : CallFn N) (ρ : ExtOracle N) (k : Nat) (env : Env N)
     (brs : List (Expr × Block)) (els : Option Block) (σ : State N) :
     execS call ρ k env (.ifs brs els) σ = .timeout ∨
     replSem call ρ k env (simplifyIfStatement api brs els) σ = execS call ρ k env (.ifs brs els) σ := by
@@ -126,8 +126,8 @@ theorem simplifyIfStatement_le {api : EvalApi} (ht : EvalTotal api)
       · have hkn' : st.keepNext = false := by simpa using hkn
         simp [hkn', replSem, execS_ifs, elseAfter]
 
-theorem processStmts_le {api : EvalApi} (ht : EvalTotal api)
-    {N : NumOps} (call : CallFn N) (ρ : ExtOracle N) (k : Nat) (stmts : List Stmt) (env : Env N) (σ : State N) :
+theorem processStmts_le {N : NumOps} {api : EvalApi} (ht : EvalTotal N api)
+    (call : CallFn N) (ρ : ExtOracle N) (k : Nat) (stmts : List Stmt) (env : Env N) (σ : State N) :
     execSs call ρ k env stmts σ = .timeout ∨
       execSs call ρ k env (processStmts api stmts) σ = execSs call ρ k env stmts σ := by
   induction stmts generalizing env σ with
@@ -167,18 +167,18 @@ theorem processStmts_le {api : EvalApi} (ht : EvalTotal api)
 /-- the statement part of the rule as a processor of its own -/
 def processorStmts (api : EvalApi) : Processor Unit := { block := processBlock api }
 
-theorem hooksLe {api : EvalApi} (ht : EvalTotal api) : HooksLe true (processorStmts api) where
+theorem hooksLe {api : EvalApi} (ht : ∀ N, EvalTotal N api) : HooksLe true (processorStmts api) where
   block := fun b _ N call ρ k env σ => by
     cases b with
     | mk stmts last =>
       simp only [processorStmts, processBlock, execB]
-      rcases processStmts_le ht call ρ k stmts env σ with hto | heq
+      rcases processStmts_le (ht N) call ρ k stmts env σ with hto | heq
       · left; exact ⟨trivial, by simp [hto, Res.bind]⟩
       · right; rw [heq]
 
 /-- whole pass over every program (statement rewrites only): same outcome unless the original
 exhausts its budget -/
-theorem applyStmts_upto {api : EvalApi} (ht : EvalTotal api) (b : Block) {N : NumOps} (ρ : ExtOracle N) (n : Nat)
+theorem applyStmts_upto {api : EvalApi} (ht : ∀ N, EvalTotal N api) (b : Block) {N : NumOps} (ρ : ExtOracle N) (n : Nat)
     (externs : List String) :
     runProgram ρ n externs b = .timeout ∨
       runProgram ρ n externs (Visitor.runDefault (processorStmts api) b ()).1 = runProgram ρ n externs b :=
@@ -186,8 +186,8 @@ theorem applyStmts_upto {api : EvalApi} (ht : EvalTotal api) (b : Block) {N : Nu
 
 /-! ### the if-expression hook up to budget exhaustion -/
 open DarkluaModel.Rules.UnusedIfBranch.ExprSound in
-theorem wrap_exact {api : EvalApi} (ht : EvalTotal api)
-    {N : NumOps} (call : CallFn N) (ρ : ExtOracle N) (k : Nat) (env : Env N) (t : Expr) (σ : State N) :
+theorem wrap_exact {N : NumOps} {api : EvalApi} (ht : EvalTotal N api)
+    (call : CallFn N) (ρ : ExtOracle N) (k : Nat) (env : Env N) (t : Expr) (σ : State N) :
     evalE call ρ k env (wrap api t) σ = one (evalE call ρ k env t σ) := by
   unfold wrap
   by_cases hm : api.canReturnMultiple t = true
@@ -202,8 +202,8 @@ theorem wrap_exact {api : EvalApi} (ht : EvalTotal api)
       rw [← ht.single t hm' call ρ k env σ σ1 ws hx]
 
 open DarkluaModel.Rules.UnusedIfBranch.ExprSound in
-theorem retainElifs_le {api : EvalApi} (ht : EvalTotal api)
-    {N : NumOps} (call : CallFn N) (ρ : ExtOracle N) (k : Nat) (env : Env N) (e : Expr)
+theorem retainElifs_le {N : NumOps} {api : EvalApi} (ht : EvalTotal N api)
+    (call : CallFn N) (ρ : ExtOracle N) (k : Nat) (env : Env N) (e : Expr)
     (elifs : List (Expr × Expr)) (σ : State N) :
     tailSem call ρ k env elifs e σ = .timeout ∨
     tailSem call ρ k env (retainElifs api elifs {}).1 (ExprSound.elseAfter (retainElifs api elifs {}).2 e) σ
@@ -261,8 +261,8 @@ theorem retainElifs_le {api : EvalApi} (ht : EvalTotal api)
             exact ih σ
 
 open DarkluaModel.Rules.UnusedIfBranch.ExprSound in
-theorem simplifyIf_le {api : EvalApi} (ht : EvalTotal api)
-    {N : NumOps} (call : CallFn N) (ρ : ExtOracle N) (k : Nat) (env : Env N)
+theorem simplifyIf_le {N : NumOps} {api : EvalApi} (ht : EvalTotal N api)
+    (call : CallFn N) (ρ : ExtOracle N) (k : Nat) (env : Env N)
     (elifs : List (Expr × Expr)) (e : Expr) :
     ∀ (c t : Expr) (σ : State N),
       evalE call ρ k env (.ifx c t elifs e) σ = .timeout ∨
@@ -339,22 +339,22 @@ theorem simplifyIf_le {api : EvalApi} (ht : EvalTotal api)
             rw [tailSem_cons]
             exact ih c' t' σ
 
-theorem processExpr_le {api : EvalApi} (ht : EvalTotal api) (e : Expr) : LeE true e (processExpr api e) := by
+theorem processExpr_le {api : EvalApi} (ht : ∀ N, EvalTotal N api) (e : Expr) : LeE true e (processExpr api e) := by
   intro N call ρ k env σ
   cases e with
   | ifx c t elifs el =>
-    rcases simplifyIf_le ht call ρ k env elifs el c t σ with hto | heq
+    rcases simplifyIf_le (ht N) call ρ k env elifs el c t σ with hto | heq
     · left; exact ⟨rfl, hto⟩
     · right; exact heq
   | _ => right; rfl
 
 /-- the whole processor of the rule -/
-theorem hooksLeFull {api : EvalApi} (ht : EvalTotal api) : HooksLe true (processor api) where
+theorem hooksLeFull {api : EvalApi} (ht : ∀ N, EvalTotal N api) : HooksLe true (processor api) where
   block := fun b s => (hooksLe ht).block b s
   expr := fun e _ => processExpr_le ht e
 
 /-- **whole rule, every program**: same observable outcome unless the original exhausts its budget -/
-theorem apply_upto {api : EvalApi} (ht : EvalTotal api) (b : Block) {N : NumOps} (ρ : ExtOracle N) (n : Nat)
+theorem apply_upto {api : EvalApi} (ht : ∀ N, EvalTotal N api) (b : Block) {N : NumOps} (ρ : ExtOracle N) (n : Nat)
     (externs : List String) :
     runProgram ρ n externs b = .timeout ∨
       runProgram ρ n externs (apply api b) = runProgram ρ n externs b :=
